@@ -8,12 +8,17 @@
    weight/max_weight below 2^-1074 rounding to 0 or to a subnormal) and overflow are
    outside; for quotients in [2^-1022, 1] rnd53 IS the IEEE result. *)
 From EoNV Require Import Prelude Samp ListDict ListDictP ListDictF ListDictFP ListDictFPr ListDictFPr2
-  ListDictFP2 ListDictFP3 ListDictFP4 ListDictFPb ListDictFPm ListDictFPm2 ListDictFPm3.
+  ListDictFP2 ListDictFP3 ListDictFP4 ListDictFPb ListDictFPm ListDictFPm2 ListDictFPm3 ListDictFPm4.
 From Coq Require Import Qabs Qpower.
 
 (* ---------- the rounding ---------- *)
 Theorem C16fm_rnd53_monotone : forall x y, x <= y -> rnd53 x <= rnd53 y.
 Proof. exact rnd53_monotone. Qed.
+
+(* the same for every precision p >= 1 (binary32 is p = 24) *)
+Theorem C16fm_rounding_monotone_any_precision :
+  forall (p : Z) x y, (1 <= p)%Z -> x <= y -> rnd_prec p x <= rnd_prec p y.
+Proof. exact rnd_prec_mono. Qed.
 
 (* what strict order survives: a strictly larger result needs a strictly larger argument *)
 Theorem C16fm_rnd53_reflects_lt : forall x y, rnd53 x < rnd53 y -> x < y.
@@ -103,6 +108,46 @@ Proof. exact b64_threshold_order. Qed.
 Example C16fm_threshold_nonvacuous : b64_threshold_example_statement.
 Proof. exact b64_threshold_example_proof. Qed.
 
+(* ---------- monotone float operations on weights ---------- *)
+Theorem C16fm_float_operations_monotone :
+  (forall a a' b b', a <= a' -> b <= b' -> fadd rnd53 a b <= fadd rnd53 a' b') /\
+  (forall a a' b b', a <= a' -> b' <= b -> fsub rnd53 a b <= fsub rnd53 a' b') /\
+  (forall a a' m, 0 < m -> a <= a' -> fdiv rnd53 a m <= fdiv rnd53 a' m) /\
+  (forall a d, rnd53 a == a -> 0 <= d -> a <= fadd rnd53 a d) /\
+  (forall t w, w <= t -> 0 <= fsub rnd53 t w) /\
+  (forall t w, rnd53 t == t -> 0 <= w -> fsub rnd53 t w <= t).
+Proof.
+  exact (conj b64_fadd_mono (conj b64_fsub_mono (conj b64_fdiv_mono
+          (conj b64_fadd_ge (conj b64_fsub_nonneg b64_fsub_le))))).
+Qed.
+
+(* a left-fold float sum of non-negative terms (update_total_weight) never falls below
+   its running value *)
+Theorem C16fm_float_sum_never_decreases :
+  forall l a, rnd53 a == a -> (forall x, In x l -> 0 <= x) -> a <= fold_left (fadd rnd53) l a.
+Proof. exact b64_fsum_ge_acc. Qed.
+
+(* every stored weight is a binary64 number, after every history *)
+Theorem C16fm_stored_weights_are_doubles :
+  forall (K : Type) (Keqb : K -> K -> bool), (forall a b, reflect (a = b) (Keqb a b)) ->
+  forall (ops : list (op K)) (s : ld K),
+    Forall (op_ok K true) ops -> ldf_run K Keqb rnd53 (ld_empty true) ops = Ok s ->
+    forall k, rnd53 (wread K s k) == wread K s k.
+Proof. exact b64_stored_weights_representable. Qed.
+
+(* update(k, d) with d >= 0 never LOWERS the weight of k (it can leave it unchanged:
+   absorption, example below) and touches no other weight *)
+Theorem C16fm_update_never_lowers_weight :
+  forall (K : Type) (Keqb : K -> K -> bool), (forall a b, reflect (a = b) (Keqb a b)) ->
+  forall (ops : list (op K)) (s s' : ld K) k d,
+    Forall (op_ok K true) ops -> ldf_run K Keqb rnd53 (ld_empty true) ops = Ok s ->
+    0 <= d -> ldf_step K Keqb rnd53 s (OpUpdate k d) = Ok s' ->
+    wread K s k <= wread K s' k /\ (forall x, x <> k -> wread K s' x = wread K s x).
+Proof. exact b64_update_never_lowers. Qed.
+
+Example C16fm_absorption : fadd rnd53 d07 dtiny == d07 /\ 0 < dtiny.
+Proof. exact b64_absorption_example. Qed.
+
 (* ---------- the selection law with rounded thresholds ---------- *)
 (* [thr_state rnd s] = the exact structure of Model/ListDict.v whose weights are the
    rounded thresholds of s and whose max_weight is 1: one round of the rounded
@@ -145,6 +190,41 @@ Proof. exact b64_selection_ratio. Qed.
 Example C16fm_selection_nonvacuous : b64_selection_example_statement.
 Proof. exact b64_selection_example_proof. Qed.
 
+(* the per-round acceptance probability with rounded thresholds, a' = sum thr / n, is
+   within 1 -+ eps of the exact sum w / (n max_weight), and is a positive probability:
+   the rejection loop terminates with probability 1 and the expected number of rounds
+   1/a' changes by a factor in [1/(1+eps), 1/(1-eps)] *)
+Theorem C16fm_acceptance_rate_relative :
+  forall (K : Type) (Keqb : K -> K -> bool), (forall a b, reflect (a = b) (Keqb a b)) ->
+  forall (ops : list (op K)) (s : ld K),
+    Forall (op_ok K true) ops -> ldf_run K Keqb rnd53 (ld_empty true) ops = Ok s ->
+    0 < wsum K s ->
+    let a' := acc_rate K (thr_state K rnd53 s) in
+    let a := wsum K s / (Qnat (length (items s)) * maxw s) in
+    (1 - eps53) * a <= a' /\ a' <= (1 + eps53) * a /\ 0 < a' /\ a' <= 1.
+Proof. exact b64_acc_rate_relative. Qed.
+
+(* END TO END, for the histories the simulators produce (every increment creates its
+   key; the weights handed in are doubles): the candidate set is that of the finite-map
+   specification m of Props/C16.v and the selection ratio with rounded thresholds is
+   within [1 - 2 eps, 1 + 3 eps] of m(k) / sum m *)
+Theorem C16fm_selection_vs_specification :
+  forall (K : Type) (Keqb : K -> K -> bool), (forall a b, reflect (a = b) (Keqb a b)) ->
+  forall (ops : list (op K)) (s : ld K) k,
+    Forall (op_ok K true) ops -> Forall (op_rep K rnd53) ops ->
+    hist_fresh K Keqb (sp_empty K) ops ->
+    ldf_run K Keqb rnd53 (ld_empty true) ops = Ok s ->
+    let m := fold_left (sp_step K Keqb) ops (sp_empty K) in
+    let W := sumQ (map (spw K m) (items s)) in
+    0 < W -> In k (items s) ->
+    (forall x, In x (items s) <-> m x <> None) /\
+    let p := ldf_threshold K rnd53 s k / thr_sum K rnd53 s in
+    (1 - 2 * eps53) * (spw K m k / W) <= p /\ p <= (1 + 3 * eps53) * (spw K m k / W).
+Proof. exact b64_selection_vs_specification. Qed.
+
+Example C16fm_specification_nonvacuous : b64_spec_example_statement.
+Proof. exact b64_spec_example_proof. Qed.
+
 Print Assumptions C16fm_rnd53_monotone.
 Print Assumptions C16fm_rnd53_reflects_lt.
 Print Assumptions C16fm_rnd53_zero.
@@ -166,3 +246,12 @@ Print Assumptions C16fm_rounded_round_is_exact_round_on_thresholds.
 Print Assumptions C16fm_rejection_law_rounded.
 Print Assumptions C16fm_selection_ratio_relative.
 Print Assumptions C16fm_selection_nonvacuous.
+Print Assumptions C16fm_rounding_monotone_any_precision.
+Print Assumptions C16fm_float_operations_monotone.
+Print Assumptions C16fm_float_sum_never_decreases.
+Print Assumptions C16fm_stored_weights_are_doubles.
+Print Assumptions C16fm_update_never_lowers_weight.
+Print Assumptions C16fm_absorption.
+Print Assumptions C16fm_acceptance_rate_relative.
+Print Assumptions C16fm_selection_vs_specification.
+Print Assumptions C16fm_specification_nonvacuous.
